@@ -6,6 +6,7 @@ F = "src/platform/unix/mod.rs"
 
 RULES = [
     R_SYS,
+    Rule("B28", r"UnixError::last\(\)", "UnixError::last_with(Tracked(&*k))", "errno is ghost kernel state: a stale value is visible"),
     Rule("D10", r"\bVec::with_capacity\(", "vec_with_capacity(", "capacity-aware wrapper"),
     Rule("D11", r"mem::size_of_val\(&total_size\)", "mem::size_of::<usize>()", "total_size: usize"),
     Rule("E1", r"let mut iovec = \[\s*iovec \{\s*iov_base: &mut total_size as \*mut _ as \*mut c_void,\s*iov_len: (?P<l0>[^,]+),\s*\},\s*"
@@ -49,6 +50,9 @@ recv = Fn(F, ["recv"], ret="r", extra_params="Tracked(k): Tracked<&mut K>",
                "head_complete(*old(k), fd) ==> !(r matches Err(UnixError::ChannelClosed))", ["C12", "C03", "C01"]),
         Clause("unix.recv/ensures.closed_only_on_own_eof",
                "r matches Err(UnixError::ChannelClosed) ==> old(k).q[fd].len() == 0", ["C12", "C03"]),
+        Clause("unix.recv/ensures.would_block_only_when_nothing_was_queued",
+               "r matches Err(UnixError::Errno(c)) ==> ((c == libc::EAGAIN || c == libc::EWOULDBLOCK) ==> old(k).q[fd].len() == 0 && final(k).q == old(k).q)",
+               ["C10", "C12", "C06", "C03"]),
         Clause("unix.recv/ensures.nothing_queued_nothing_consumed",
                "old(k).q[fd].len() == 0 ==> r is Err && final(k).q == old(k).q", ["C10", "C03"]),
     ],
